@@ -20,7 +20,7 @@ def main():
                 print(f"{m['name']}: STALE (old text not found)")
                 continue
             open(p, "w").write(s.replace(m["old"], m["new"], 1))
-            env = dict(os.environ, PYVC_REPO=d)
+            env = dict(os.environ, PYVC_REPO=d, PYVC_OUT=d)
             if m.get("prop"):
                 r = subprocess.run(["./check", m["prop"]], capture_output=True, text=True, env=env,
                                    cwd=os.path.dirname(os.path.dirname(os.path.abspath(__file__))))
